@@ -283,12 +283,14 @@ def correspond(ctx):
     items, meta = [], []
     for ln, st in sorted(statics.items()):
         days = [x for x in tcases if x["k"] == "gwday" and x["line"] == ln]
-        route = 0 if st["route"] == "table" else (2 if st["ptf"] else 1)
-        thz = ["(%s%%char, %d%%Z, %s, %s, %d%%Z)" % (_tex(h["tex"]), h["ld"], fl(h["c"]), fl(h["stein"]), h["ukt"]) for h in st["hz"]]
-        ehz = ["(%s, %s, %s, %d%%Z)" % (fl(h["fka"]), fl(h["wp"]), fl(h["gpv"]), h["ukt"]) for h in st["hz"]]
-        sdef = ("Definition S : c15_static := {| cs_route := %d%%nat; cs_sand := %s; cs_n := %d%%nat; cs_gw := %s; cs_grw0 := %s;\n"
-                "  cs_thz := [%s];\n  cs_ehz := [%s];\n  cs_wb := %s; cs_wmb := %s; cs_pb := %s; cs_wnb := %s |}."
-                % (route, waterlib.b(st["sand"]), st["n"], fl(st["gw"]), fl(st["initgrw"]), "; ".join(thz), "; ".join(ehz),
+        route = 2 if st["ptf"] else 0
+        kinds = ["explicit" if float.fromhex(h["fka"]) > 0 else "table" for h in st["hz"]]
+        rname = "ptf%s" % st["ptf"] if st["ptf"] else (kinds[0] if len(set(kinds)) == 1 else "mixed-" + kinds[0] + "-top")
+        hz = ["(%s%%char, %d%%Z, %s, %s, %d%%Z, (%s, %s, %s))" % (_tex(h["tex"]), h["ld"], fl(h["c"]), fl(h["stein"]), h["ukt"],
+                                                               fl(h["fka"]), fl(h["wp"]), fl(h["gpv"])) for h in st["hz"]]
+        sdef = ("Definition S : c15_static := {| cs_route := %d%%nat; cs_cappar := %s; cs_sand := %s; cs_n := %d%%nat; cs_gw := %s; cs_grw0 := %s;\n"
+                "  cs_hz := [%s];\n  cs_wb := %s; cs_wmb := %s; cs_pb := %s; cs_wnb := %s |}."
+                % (route, waterlib.b(st["cappar"] == 1), waterlib.b(st["sand"]), st["n"], fl(st["gw"]), fl(st["initgrw"]), "; ".join(hz),
                    fls(st["wb"]), fls(st["wmb"]), fls(st["pb"]), fls(st["wnb"])))
         recs = ["(S, (%s, %s, %s, %s, %s, %s, %s))" % (waterlib.b(d["initial"]), fl(d["grw"]), fls(d["w"]), fls(d["wmin"]), fls(d["porges"]),
                                                         fls(d["wnor"]), fl(d["wred"])) for d in days]
@@ -297,12 +299,15 @@ def correspond(ctx):
                       "Definition M := Eval vm_compute in mismatches (gwday_check hypar_rows) 0%nat cases.", "Print M."]
         items.append(("Cases_gwday_%d" % ln, "\n".join(body) + "\n"))
         meta.append((ln, st, days))
-        c.bump("run-route-%s" % ["table", "explicit", "ptf%s" % st["ptf"]][route])
+        c.bump("run-route-%s" % rname)
+        if any(float.fromhex(h["stein"]) > 0 for h in st["hz"]):
+            c.bump("run-with-stones-%s" % rname)
+        c.bump("run-groundwater-%s" % st.get("gwfrom", "?"))
         c.bump("gwday-initial", sum(1 for d in days if d["initial"]))
         c.bump("gwday-update", sum(1 for d in days if not d["initial"]))
         for d in days:
             distinct.add((ln, d["zeit"]))
-    names = ["W", "WMIN", "PORGES", "WNOR", "WRED", "backup-vs-route", "row-missing"]
+    names = ["W", "WMIN", "PORGES", "WNOR", "WRED", "backup-vs-route", "row-missing", "CAPPAR"]
     for (nm, rc2, o), (ln, st, days) in zip(ctx.coq_eval_many(items, timeout=1200), meta):
         m = re.search(r"M\s*=\s*(.*?)\s*:\s*list \(nat \* nat\)", o, re.S)
         if rc2 != 0 or not m:
